@@ -23,7 +23,8 @@ def _c(technique, level):
 
 CHECKS.update({
     "C01": _c("runtime monitoring: totality / error-shape invariant monitor over recorded compile() events on hostile "
-              "generated texts, with a one-way grammar-recogniser oracle; exhaustive short token sequences",
+              "generated texts, with a one-way grammar-recogniser oracle; exhaustive short token sequences; thorough tier replays the corpus under "
+              "AddressSanitizer and compiles short hostile texts under Miri",
               "every compile event is checked for outcome shape (program or >=1 positioned, non-empty errors; no "
               "panic / abort / hang), position bounds, and acceptance (invalid-by-construction families must be "
               "rejected; accepted text must be accepted by an independent CEL.g4 recogniser)"),
@@ -42,11 +43,13 @@ CHECKS.update({
               "escapes from one; depth-2 nestings of all three operators over {true,false,error} enumerated "
               "completely (depth 3 for &&/|| in thorough)"),
     "C07": _c("runtime monitoring: exact equality of the ordered host-call log with the reference log, plus a "
-              "logical resolve-step counter (hook) checked against a linear bound",
+              "logical resolve-step counter (hook) checked against a linear bound; under-supplied calls are judged by "
+              "at-most-once / source-order (sub-sequence) instead of equality",
               "every leaf / call is wrapped by a logging host function; duplicated, reordered or missing "
               "evaluations change the log; exponential re-evaluation exceeds the step bound (time-independent)"),
     "C10": _c("runtime monitoring: outcome + ordered call log of macro programs compared with Python folds with "
-              "explicit early exit; exhaustive small ranges",
+              "explicit early exit; exhaustive small ranges; long single-thread histories (millions of iterations) for state "
+              "carried between executions",
               "all five macros over every list of length 0-4/0-6 from a 3-symbol alphabet and maps with 0-4 keys, "
               "with pure, raising, logging and nested bodies"),
 })
@@ -57,7 +60,9 @@ CHECKS.update({
               "under every operator (the repository's unused fuzz target made deterministic)",
               "every execution / direct Value operator call is observed for panic, abort and hang; ~150-value hostile "
               "pool squared under 12 direct operators and inside programs, every built-in on every pool value in both "
-              "call styles, indexing sweep, random untyped programs of depth <= 8; ASan replay in the thorough tier"),
+              "call styles, indexing sweep, digit runs / byte alignments under every text-consuming built-in, sequence pairs under the "
+              "searching built-ins, random untyped programs of depth <= 8; thorough tier: ASan replay, release-profile build, "
+              "Miri over direct operators and pre-parsed programs"),
     "C05": _c("runtime monitoring: invariant monitors on hooked state (context snapshots, Arc identity through weak "
               "handles, reference-count conservation, earlier results) over sequential histories; solo-equality oracle "
               "over recorded concurrent histories (tickets from one atomic clock); TSan + Miri in the thorough tier",
